@@ -9,6 +9,9 @@ from optuna.storages._cached_storage import _CachedStorage
 from optuna.trial import FrozenTrial, TrialState, create_trial, Trial
 from optuna.study import Study
 
+from optuna.study._frozen import FrozenStudy
+from optuna.study import StudySummary
+
 import symex as sx
 from symex import Obligation
 from stubs.fake_rdb import FakeRDB
@@ -43,6 +46,9 @@ def snap(o):
     if isinstance(o, FrozenTrial):
         return ("FT", o.number, o.state, snap(o._values), snap(o.params), snap(o.distributions), snap(o.user_attrs),
                 snap(o.system_attrs), snap(o.intermediate_values), o.datetime_start, o.datetime_complete, o._trial_id)
+    if isinstance(o, (FrozenStudy, StudySummary)):
+        return ("ST", o.study_name, snap(o.user_attrs), snap(o.system_attrs), snap(getattr(o, "best_trial", None)),
+                tuple(getattr(o, "directions", None) or getattr(o, "_directions", ())))
     if isinstance(o, dict):
         return ("dict", tuple((k, snap(v)) for k, v in o.items()))
     if isinstance(o, (list, tuple)):
@@ -68,7 +74,7 @@ GETTERS = ["study.trials", "study.get_trials(deepcopy=False)", "study.get_trials
            "storage.get_all_trials(deepcopy=False)", "storage.get_all_trials(states)", "study.best_trial",
            "study.user_attrs", "study.system_attrs", "trial.params", "trial.distributions", "trial.user_attrs", "trial.system_attrs",
            "frozen-from-tell", "study.get_trials(states=(WAITING,))", "storage.get_all_trials(states=(WAITING,), deepcopy=False)",
-           "study.get_trials(states=[WAITING, RUNNING])"]
+           "study.get_trials(states=[WAITING, RUNNING])", "storage.get_all_studies", "get_all_study_summaries"]
 
 SETTERS = ["trial.suggest_float(new)", "trial.suggest_int(new)", "trial.suggest_categorical(new)", "trial.suggest_float(same)",
            "trial.report", "trial.set_user_attr(same key)", "trial.set_user_attr(new key)", "trial.set_system_attr",
@@ -176,6 +182,12 @@ def get_objects(g, storage, study, trial, other):
         return study.get_trials(deepcopy=True, states=[TrialState.WAITING, TrialState.RUNNING])
     if g == "storage.get_all_trials(deepcopy=True, states=(WAITING,))":
         return storage.get_all_trials(sid, deepcopy=True, states=(TrialState.WAITING,))
+    if g == "storage.get_all_studies":
+        return storage.get_all_studies()
+    if g == "get_all_study_summaries":
+        return optuna.get_all_study_summaries(storage)
+    if g == "study.best_trial(constrained fallback)":
+        return [study.best_trial]
     if g == "study.best_trial":
         return [study.best_trial]
     if g == "study.best_trials":
@@ -237,10 +249,18 @@ def make_deepcopy_body(backends):
     def body():
         kind = sx.choose(backends, "backend")
         storage, study, trial, other = seed(kind, False)
-        g = sx.choose(["study.trials", "study.get_trials(deepcopy=True)", "study.best_trial", "study.user_attrs", "trial.params",
+        g = sx.choose(["study.best_trial(constrained fallback)", "storage.get_all_studies", "get_all_study_summaries",
+                       "study.trials", "study.get_trials(deepcopy=True)", "study.best_trial", "study.user_attrs", "trial.params",
                        "trial.user_attrs", "trial.distributions", "storage.get_all_trials(deepcopy=True)", "study.best_trials",
                        "study.get_trials(states=(WAITING,))", "study.get_trials(states=[WAITING, RUNNING])",
                        "storage.get_all_trials(deepcopy=True, states=(WAITING,))"], "getter")
+        if g == "study.best_trial(constrained fallback)":
+            # the best-valued trial is infeasible: best_trial falls back to the best feasible trial
+            from optuna.samplers._base import _CONSTRAINTS_KEY
+            dist = {"x": optuna.distributions.FloatDistribution(0, 1)}
+            study.add_trial(create_trial(value=-10.0, params={"x": 0.5}, distributions=dist, system_attrs={_CONSTRAINTS_KEY: [1.0]}, user_attrs={"u": {"d": 1}}))
+            study.add_trial(create_trial(value=-5.0, params={"x": 0.5}, distributions=dist, system_attrs={_CONSTRAINTS_KEY: [-1.0]}, user_attrs={"u": {"d": 1}}))
+
         def read():
             if g == "storage.get_all_trials(deepcopy=True)":
                 return storage.get_all_trials(study._study_id, deepcopy=True)
@@ -263,6 +283,15 @@ def make_deepcopy_body(backends):
                 o.state = TrialState.FAIL
                 o.values = None
                 o.number = 99
+            elif isinstance(o, (FrozenStudy, StudySummary)):
+                for d in (o.user_attrs, o.system_attrs):
+                    for v in d.values():
+                        if isinstance(v, dict):
+                            v["mut"] = 1
+                    d["new"] = "mutated"
+                    for k in list(d):
+                        if not isinstance(d[k], dict):
+                            d[k] = "mutated"
             elif isinstance(o, dict):
                 for k in list(o):
                     if isinstance(o[k], dict):
@@ -317,4 +346,8 @@ def obligations(tier):
                               bounds=dict(backends=BACKENDS, getters=len(GETTERS), setters=len(SETTERS), setters_per_history=2),
                               shard_depth=3, budget_s=1800, classify=classify, require_reach=["compared"],
                               describe="every (backend, getter, setter, setter) history"))
+        obs.append(Obligation("snapshot-3setters", make_snapshot_body(BACKENDS, 3), setup, CODE,
+                              bounds=dict(backends=BACKENDS, getters=len(GETTERS), setters=len(SETTERS), setters_per_history=3),
+                              shard_depth=4, budget_s=3000, classify=classify, require_reach=["compared"],
+                              describe="every (backend, getter, setter, setter, setter) history"))
     return obs
